@@ -24,12 +24,16 @@ def run(ctx):
     ctx.run("C02.SHELVE", "R-FLOW", mem.shelve)
     ctx.run("C06.CACHE-FORWARD", "R-FLOW", mem.cache_forward)
     ctx.run("C12.CHECK-DOMINATES", "R-ORDER", mem.check_dominates)
+    ctx.run("C12.FRESH-SOURCE", "R-WHO", mem.fresh_source)
+    ctx.run("C12.CODE-HASH", "R-FLOW", mem.code_hash)
+    ctx.run("C07.SIGNATURE", "R-WHO", c07.signature_fresh)
     ctx.run("C07.KINDS", "R-TABLE", c07.kinds)
     ctx.run("C07.LOCKSTEP", "R-DUAL", c07.lockstep)
     ctx.run("C07.POSITIONAL", "R-FLOW", c07.positional)
     ctx.run("C07.KW", "R-ORDER", c07.kw)
     ctx.run("C07.METHOD", "R-ORDER", c07.method)
     ctx.run("C07.IGNORE", "R-ORDER", c07.ignore)
+    ctx.run("C08.PURE", "R-WHO", c08.pure)
     ctx.run("C08.UNORDERED", "R-TABLE", c08.unordered)
     ctx.run("C08.SEED", "R-WHO", c08.seed)
     ctx.run("C08.MEMO", "R-ORDER", c08.memo)
